@@ -214,7 +214,7 @@ def renderFor (op : Op) (r : Resp) : String :=
 def implCanon (op : Op) (out : String) : String :=
   match op with
   | .listParts .. =>
-    -- `ok:<parts, sorted by the harness>:<in-order flag>`: the model predicts the order (1d762a7: the code sorts), so only an
+    -- `ok:<parts, sorted by the harness>:<in-order flag>`: the model predicts the order (764f144: the code sorts), so only an
     -- answer that came back in ascending order (flag 1) is the model's text; flag 0 stays and differs from it
     match out.splitOn ":" with
     | ["ok", ps, "1"] => "ok:" ++ ps
